@@ -11,14 +11,17 @@
   `.fill` / `.blkw` / `.stringz` directive expands to all carry one span
   (`multiword_share_span_holds`, on the preprocessor step); addresses that hold no statement show nothing; a label
   location resolves to `orig + line − 1 + offset` for EVERY origin (incl. ≥ 0x8000) whenever that
-  lies in `[orig, 0xFE00)`, and is refused otherwise.  Stated only (`def … : Prop`): the
-  whole-program fact that needs an induction over `parseLoop` carrying span information
-  (`span_inside_source`) and the text-level round trip `span_text_eq_statement` (needs C01's
-  `render` and its stage 3).  These are checked on every run by the three-way correspondence
-  (implementation vs. model spans vs. the generator's own statement texts).
+  lies in `[orig, 0xFE00)`, and is refused otherwise; every statement span of an assembled image
+  starts and ends on a character boundary of the source, so it can be sliced and `assembly a`
+  never panics (`span_inside_source_holds`, `show_single_line_no_panic`; whole program, lemmas in
+  `Proofs/AsmSpan.lean`).  Stated only (`def … : Prop`) in full: the text-level round trip
+  `span_text_eq_statement` (needs C01's `render` and its stage 3; its `_partial` is proved).  It is
+  checked on every run by the three-way correspondence (implementation vs. model spans vs. the
+  generator's own statement texts).
 -/
 import Lace.Model.AsmSource
 import Lace.Proofs.DbgBasics
+import Lace.Proofs.AsmSpan
 namespace Lace.C17
 open Lace Lace.Asm Lace.Dbg Lace.Cmd
 
@@ -74,11 +77,39 @@ theorem span_covers_operands_holds : span_covers_operands := by
       rw [if_pos h']
 
 /-- Every statement span of an assembled image lies inside the source on character boundaries, so
-the debugger's slice `&src[span]` never panics.  STATED. -/
+the debugger's slice `&src[span]` never panics.  Proved below: `span_inside_source_holds`. -/
 def span_inside_source : Prop :=
   ∀ (so : Bool) (tbl : SymTab) (src : List Char) (img : Image) (tbl' : SymTab),
     assemble so tbl src = (.ok img, tbl') →
     ∀ p ∈ img.spans, ∃ t, sliceBytes src p.1 p.2 = some t
+
+/-- `span_inside_source`, proved: both ends of every statement span are character boundaries of
+the source (`Proofs/AsmSpan.lean`: the invariant `Bdy` carried from the lexer's cursor through
+`preprocess`, `tok_end`, `add_stmt` and `backpatch`), and such a span can be sliced. -/
+theorem span_inside_source_holds : span_inside_source := by
+  intro so tbl src img tbl' h p hp
+  obtain ⟨h1, h2⟩ := assemble_spans_bdy (some so) tbl src img tbl' h p hp
+  exact sliceBytes_of_bdy h1 h2
+
+/-- Consequence for the debugger: whatever the address, `assembly a` on an assembled program never
+hits the slicing panic of `show_single_line` — it prints nothing or a piece of the source. -/
+theorem show_single_line_no_panic (so : Bool) (tbl : SymTab) (src : List Char) (img : Image)
+    (tbl' : SymTab) (h : assemble so tbl src = (.ok img, tbl')) (orig a : Word) :
+    (AsmSource.mk orig img.spans src).showSingleLine a ≠ .panic := by
+  unfold AsmSource.showSingleLine
+  cases hs : (AsmSource.mk orig img.spans src).statementAt a with
+  | none => simp
+  | some p =>
+    obtain ⟨o, l⟩ := p
+    have hmem : (o, l) ∈ img.spans := by
+      unfold AsmSource.statementAt at hs
+      split at hs
+      · cases hs
+      · exact List.mem_of_getElem? hs
+    obtain ⟨t, ht⟩ := span_inside_source_holds so tbl src img tbl' h (o, l) hmem
+    simp only [] at ht ⊢
+    rw [ht]
+    simp
 
 /-- The words of one `.stringz` / `.blkw` directive all carry the span of that directive (from
 the `.` of the directive to the end of its literal), as does the single token of a `.fill`.
@@ -252,6 +283,18 @@ example (m : Machine) (ev : Machine → World → List Char → EvalResult) :
   rw [label_resolves _ _ _ _ _ 2#16 rfl (by decide) (by decide) (by decide) (by decide)]
   rfl
 
+/-- a program with a multi-byte comment, a `.stringz` with a multi-byte character and an
+instruction with operands: it assembles, and its spans are `halt`, the `.stringz` directive with
+its literal (twice: one character and the terminator) and `add r0 r0 #1` -/
+example : (match (assemble false [] "halt ; é\n.stringz \"é\" add r0 r0 #1".toList).1 with
+    | .ok img => decide (img.spans = [(0, 4), (10, 13), (10, 13), (24, 12)]) | _ => false) = true := by
+  decide +kernel
+example : sliceBytes "halt ; é\n.stringz \"é\" add r0 r0 #1".toList 10 13 = some ".stringz \"é\"".toList := by
+  decide
+/-- one iteration of `preprocess` on `.stringz "ab"`: three tokens, one span -/
+example : (match preprocessStep (some false) 0 ".stringz \"ab\"".toList [] with
+    | .more _ _ acc => decide (acc.map (·.span) = [⟨0, 13⟩, ⟨0, 13⟩, ⟨0, 13⟩]) | _ => false) = true := by
+  decide +kernel
 example : sliceBytes "halt\nadd r0 r0 #1\n".toList 0 4 = some "halt".toList := by decide
 example : sliceBytes "é".toList 1 1 = none := by decide
 example : (AsmSource.mk 0x3000#16 [(0, 4), (5, 12)] "halt\nadd r0 r0 #1\n".toList).showSingleLine 0x3001#16 =
